@@ -148,6 +148,7 @@ func init() {
 // famSesHs: the option lattice of the handshake (C06) and the cookie /
 // initial_headers / headers policy (C17), three sessions per server.
 func famSesHs(t *testing.T, r *Rec) {
+	hsSharedInitial(t, r)
 	type cfg struct {
 		I, T, max   int
 		transports  string
@@ -353,6 +354,35 @@ func famSesHs(t *testing.T, r *Rec) {
 				if !isHs && ih[rs.req] != 0 {
 					r.Violate("C17", "C17/initial_headers/on-later-response", fmt.Sprintf("initial_headers fired for response %d (not the handshake) of s%d", rs.req, sess), replay)
 				}
+			}
+		}
+	}
+}
+
+// hsSharedInitial: the configured initial packet given as a plain seekable reader, two sessions whose
+// handshakes both precede their first polls: each receives its own copy (C06).
+func hsSharedInitial(t *testing.T, r *Rec) {
+	for _, kind := range []string{"r"} {
+		lines := []string{fmt.Sprintf("ses cfg 25000 20000 1000 100000 polling 1 0 %s%s 0 - hdr", kind, hx([]byte("hello"))),
+			"ses hs polling 4 0 -", "ses hs polling 4 0 -", "ses poll s0 initial", "ses poll s1 initial", "ses obs"}
+		outs := sesRun(t, lines)
+		r.scenarios++
+		for i, l := range lines {
+			r.Op(l, outs[i])
+		}
+		r.Cover("hs/initial-as-reader/" + kind)
+		for k, idx := range []int{3, 4} {
+			got := ""
+			for _, rs := range parseObs(outs[idx]).resps {
+				if pk, err := decodeV4Payload(unhx(rs.body)); err == nil {
+					got = pkSummary(pk)
+					if len(pk) > 0 && pk[0].typ == '4' && string(pk[0].data) == "hello" {
+						got = "ok"
+					}
+				}
+			}
+			if got != "ok" {
+				r.Violate("C06", fmt.Sprintf("C06/initial-packet/reader/session=%d", k), fmt.Sprintf("session %d: the configured initial packet (a plain reader) is not the first message of its first cycle (got %q)", k, got), lines[:idx+1])
 			}
 		}
 	}
